@@ -1,3 +1,1196 @@
-//! C17 — not built yet.
-pub const BUILT: bool = false;
-pub fn run(_rep: &mut vx::Report) {}
+//! C17 — incremental updates are append-only and take effect.
+//!
+//! Space (all enumerated): base documents x every history of 1..=K edits (K = 2 quick,
+//! 3 thorough) over the edit alphabet
+//!   fill(field, v) | fill_many([(f_a, v), (f_b, v')]) | fill_many with a repeated name |
+//!   note add(page, v) | note update(target, v) | note remove(target) | mixed note batches |
+//!   page add | page replacement | page overlay            with v in {x, é, 中, ")("}.
+//! Bases: a library-authored 2-page document with two text fields and one text note written
+//! classic and "modern" (xref stream + object streams), and a refpdf-built document with a
+//! merged field/widget, a hierarchical field, a UTF-16 field name with a separate widget, an
+//! indirect /Annots array, /Info and /ID, written classic and as xref stream + object stream.
+//! Oracle (reference reader refpdf + a logical model of fields, notes and pages):
+//!   1. every output starts with the previous file's bytes;
+//!   2. refpdf reads the output as a chain of revisions: one more section, /Prev = previous
+//!      startxref, strict validator silent, the new trailer carries the previous trailer's
+//!      entries (ISO 32000-1 7.5.6);
+//!   3. refpdf reads every edited value as its latest value, everything else as before;
+//!   4. the library's reader reads the same field values / notes / pages as refpdf;
+//!   5. every object outside the edit's touched set is value-identical, touched objects
+//!      change only in the keys the edit is about, new objects get fresh numbers;
+//!   6. the observed logical state equals the model state, which is a function of the
+//!      history's logical effect only (differential: equal effects => equal states).
+use oxidize_pdf::geometry::Point;
+use oxidize_pdf::writer::{IncrementalFormFiller, IncrementalTextNoteEditor, PdfWriter, TextNoteId, TextNoteMutation, WriterConfig};
+use refpdf::builder::{FileBuilder, Revision, XrefForm};
+use refpdf::file::{PdfFile, XEntry};
+use refpdf::syntax::{is_regular, Obj, Parser};
+use refpdf::textstr::{decode_text_string, encode_text_string};
+use serde_json::json;
+use std::collections::{BTreeMap, BTreeSet};
+use std::sync::atomic::{AtomicU64, Ordering};
+use vx::{Ctx, Explore, Report};
+
+pub const BUILT: bool = true;
+
+const VALS: [&str; 4] = ["x", "é", "中", ")("];
+static FILE_SEQ: AtomicU64 = AtomicU64::new(0);
+static REFUSED: AtomicU64 = AtomicU64::new(0);
+static STOPPED_EARLY: AtomicU64 = AtomicU64::new(0);
+static INAPPLICABLE: AtomicU64 = AtomicU64::new(0);
+
+// ------------------------------------------------------------------ bases
+
+struct Base {
+    name: &'static str,
+    bytes: Vec<u8>,
+    fields: Vec<&'static str>,
+}
+
+fn library_base(modern: bool) -> Result<Vec<u8>, String> {
+    use oxidize_pdf::forms::{FormManager, TextField, Widget, WidgetAppearance};
+    use oxidize_pdf::geometry::Rectangle;
+    use oxidize_pdf::text::Font;
+    use oxidize_pdf::{Document, Page};
+    let r = vx::guard(|| -> Result<Vec<u8>, String> {
+        let mut doc = Document::new();
+        doc.set_title("C17 base");
+        let mut page = Page::a4();
+        page.text().set_font(Font::Helvetica, 12.0).at(50.0, 800.0).write("hello").map_err(|e| e.to_string())?;
+        let mut fm = FormManager::new();
+        let mut y = 700.0;
+        for name in ["f1", "f2"] {
+            let rect = Rectangle::new(Point::new(100.0, y), Point::new(300.0, y + 20.0));
+            let widget = Widget::new(rect).with_appearance(WidgetAppearance::default());
+            let fr = fm.add_text_field(TextField::new(name), widget.clone(), None).map_err(|e| e.to_string())?;
+            page.add_form_widget_with_ref(widget, fr).map_err(|e| e.to_string())?;
+            y -= 40.0;
+        }
+        page.add_annotation(oxidize_pdf::annotations::TextAnnotation::new(Point::new(400.0, 400.0)).with_contents("n0").to_annotation());
+        doc.add_page(page);
+        let mut p2 = Page::a4();
+        p2.text().set_font(Font::Helvetica, 12.0).at(50.0, 800.0).write("second").map_err(|e| e.to_string())?;
+        doc.add_page(p2);
+        doc.set_form_manager(fm);
+        if modern { doc.to_bytes_with_config(WriterConfig::modern()) } else { doc.to_bytes() }.map_err(|e| e.to_string())
+    });
+    match r {
+        Ok(x) => x,
+        Err(p) => Err(format!("panic: {p}")),
+    }
+}
+
+fn ints(v: [i64; 4]) -> Obj {
+    Obj::Array(v.iter().map(|x| Obj::Int(*x)).collect())
+}
+
+fn crafted_base(modern: bool) -> Vec<u8> {
+    let font = Obj::dict(vec![("Type", Obj::name("Font")), ("Subtype", Obj::name("Type1")), ("BaseFont", Obj::name("Helvetica")), ("Encoding", Obj::name("WinAnsiEncoding"))]);
+    let res = || Obj::dict(vec![("Font", Obj::dict(vec![("Helv", Obj::Ref(21, 0))]))]);
+    let objs: Vec<(u32, Obj)> = vec![
+        (1, Obj::dict(vec![("Type", Obj::name("Catalog")), ("Pages", Obj::Ref(2, 0)), ("AcroForm", Obj::Ref(5, 0)), ("Lang", Obj::str(b"en"))])),
+        (2, Obj::dict(vec![("Type", Obj::name("Pages")), ("Kids", Obj::Array(vec![Obj::Ref(3, 0), Obj::Ref(4, 0)])), ("Count", Obj::Int(2))])),
+        (3, Obj::dict(vec![("Type", Obj::name("Page")), ("Parent", Obj::Ref(2, 0)), ("MediaBox", ints([0, 0, 595, 842])), ("Resources", res()), ("Contents", Obj::Ref(20, 0)), ("Annots", Obj::Ref(6, 0))])),
+        (4, Obj::dict(vec![("Type", Obj::name("Page")), ("Parent", Obj::Ref(2, 0)), ("MediaBox", ints([0, 0, 595, 842])), ("Resources", res()), ("Contents", Obj::Ref(22, 0))])),
+        (5, Obj::dict(vec![("Fields", Obj::Array(vec![Obj::Ref(7, 0), Obj::Ref(8, 0), Obj::Ref(10, 0)])), ("DA", Obj::str(b"/Helv 10 Tf 0 g")), ("DR", res())])),
+        (6, Obj::Array(vec![Obj::Ref(7, 0), Obj::Ref(9, 0), Obj::Ref(11, 0), Obj::Ref(12, 0)])),
+        (7, Obj::dict(vec![("Type", Obj::name("Annot")), ("Subtype", Obj::name("Widget")), ("FT", Obj::name("Tx")), ("T", Obj::str(b"f1")), ("Rect", ints([100, 700, 300, 720])), ("P", Obj::Ref(3, 0)), ("F", Obj::Int(4))])),
+        (8, Obj::dict(vec![("T", Obj::str(b"grp")), ("Kids", Obj::Array(vec![Obj::Ref(9, 0)]))])),
+        (9, Obj::dict(vec![("Type", Obj::name("Annot")), ("Subtype", Obj::name("Widget")), ("FT", Obj::name("Tx")), ("T", Obj::str(b"child")), ("Parent", Obj::Ref(8, 0)), ("Rect", ints([100, 660, 300, 680])), ("F", Obj::Int(4))])),
+        (10, Obj::dict(vec![("FT", Obj::name("Tx")), ("T", Obj::Str(encode_text_string("名é"))), ("Kids", Obj::Array(vec![Obj::Ref(11, 0)]))])),
+        (11, Obj::dict(vec![("Type", Obj::name("Annot")), ("Subtype", Obj::name("Widget")), ("Parent", Obj::Ref(10, 0)), ("Rect", ints([100, 620, 300, 640])), ("F", Obj::Int(4))])),
+        (12, Obj::dict(vec![("Type", Obj::name("Annot")), ("Subtype", Obj::name("Text")), ("Rect", ints([400, 400, 420, 420])), ("Contents", Obj::str(b"n0")), ("Name", Obj::name("Note")), ("M", Obj::str(b"D:20200101000000Z"))])),
+        (20, Obj::stream(vec![], b"BT /Helv 12 Tf 50 800 Td (hello) Tj ET".to_vec())),
+        (21, font),
+        (22, Obj::stream(vec![], b"BT /Helv 12 Tf 50 800 Td (second) Tj ET".to_vec())),
+        (23, Obj::dict(vec![("Title", Obj::str(b"C17 base")), ("Producer", Obj::str(b"refpdf"))])),
+    ];
+    let mut r = Revision::new(if modern { XrefForm::Stream } else { XrefForm::Table });
+    for (n, o) in objs {
+        if modern && !matches!(o, Obj::Stream(_)) {
+            r.in_objstm.insert(n);
+        }
+        r.add(n, o);
+    }
+    r.trailer_extra.push(("ID".into(), Obj::Array(vec![Obj::Str(vec![0x11; 16]), Obj::Str(vec![0x22; 16])])));
+    let mut fb = FileBuilder::new(1);
+    fb.info = Some((23, 0));
+    fb.revisions.push(r);
+    fb.build().bytes
+}
+
+// ------------------------------------------------------------------ reference observation
+
+#[derive(Clone, Debug, PartialEq)]
+struct FieldObs {
+    id: u32,
+    v: Option<Vec<u8>>,
+}
+#[derive(Clone, Debug, PartialEq)]
+struct NoteObs {
+    id: u32,
+    page: usize,
+    rect: [f64; 4],
+    contents: Option<Vec<u8>>,
+}
+#[derive(Clone, Debug, PartialEq)]
+enum Container {
+    Page(u32),
+    Array(u32),
+}
+#[derive(Clone, Debug)]
+struct RefObs {
+    fields: BTreeMap<String, FieldObs>,
+    notes: Vec<NoteObs>,
+    /// per page: where its /Annots list lives, and the list itself
+    annots: Vec<(Container, Vec<Obj>)>,
+    page_ids: Vec<u32>,
+    page_texts: Vec<Vec<String>>,
+    title: Option<String>,
+    catalog_id: u32,
+    pages_root_id: Option<u32>,
+    info_id: Option<u32>,
+    acroform_id: Option<u32>,
+}
+
+fn shown_strings(content: &[u8]) -> Vec<String> {
+    let mut p = Parser::new(content, 0);
+    let mut out = Vec::new();
+    let mut last: Option<Vec<u8>> = None;
+    loop {
+        p.skip_ws();
+        if p.at_end() {
+            break;
+        }
+        let save = p.pos;
+        match p.parse_object() {
+            Ok(Obj::Str(s)) => last = Some(s),
+            Ok(_) => {}
+            Err(_) => {
+                p.pos = save;
+                let st = p.pos;
+                while let Some(ch) = p.peek() {
+                    if is_regular(ch) {
+                        p.pos += 1;
+                    } else {
+                        break;
+                    }
+                }
+                if p.pos == st {
+                    p.pos += 1;
+                }
+                let op = &content[st..p.pos.min(content.len())];
+                if op == b"Tj" || op == b"'" || op == b"\"" {
+                    if let Some(s) = last.take() {
+                        out.push(String::from_utf8_lossy(&s).to_string());
+                    }
+                }
+                last = None;
+            }
+        }
+    }
+    out
+}
+
+fn walk_fields(f: &PdfFile, node_ref: &Obj, prefix: &str, depth: usize, out: &mut BTreeMap<String, FieldObs>) -> Result<(), String> {
+    if depth > 32 {
+        return Err("field tree too deep".into());
+    }
+    let Some((id, _)) = node_ref.as_ref() else { return Ok(()) };
+    let node = f.resolve(node_ref);
+    let Some(d) = node.as_dict() else { return Err(format!("field {id} is not a dictionary")) };
+    let t = match d.get("T") {
+        Some(o) => f.resolve(o).as_str_bytes().map(decode_text_string),
+        None => None,
+    };
+    let full = match (&t, prefix.is_empty()) {
+        (Some(t), true) => t.clone(),
+        (Some(t), false) => format!("{prefix}.{t}"),
+        (None, _) => prefix.to_string(),
+    };
+    let kids: Vec<Obj> = f.resolve_opt(d.get("Kids")).as_array().map(|a| a.to_vec()).unwrap_or_default();
+    let kids_are_fields = kids.iter().any(|k| f.resolve(k).dict_get("T").is_some());
+    if kids.is_empty() || !kids_are_fields {
+        if t.is_some() {
+            let v = match d.get("V") {
+                Some(o) => f.resolve(o).as_str_bytes().map(|b| b.to_vec()),
+                None => None,
+            };
+            out.insert(full, FieldObs { id, v });
+        }
+    } else {
+        for k in &kids {
+            walk_fields(f, k, &full, depth + 1, out)?;
+        }
+    }
+    Ok(())
+}
+
+fn observe(f: &PdfFile) -> Result<RefObs, String> {
+    let root = f.trailer_get("Root").ok_or("no /Root")?;
+    let catalog_id = root.as_ref().ok_or("/Root not a reference")?.0;
+    let cat = f.catalog()?;
+    let mut fields = BTreeMap::new();
+    let acro_ref = cat.dict_get("AcroForm").cloned();
+    let acroform_id = acro_ref.as_ref().and_then(|o| o.as_ref()).map(|r| r.0);
+    if let Some(a) = &acro_ref {
+        let acro = f.resolve(a);
+        if let Some(arr) = f.dget(&acro, "Fields").as_array() {
+            for r in arr {
+                walk_fields(f, r, "", 0, &mut fields)?;
+            }
+        }
+    }
+    let pages = f.pages()?;
+    let mut notes = Vec::new();
+    let mut annots = Vec::new();
+    let mut page_ids = Vec::new();
+    let mut page_texts = Vec::new();
+    for (pi, p) in pages.iter().enumerate() {
+        let pid = p.obj.ok_or("page without object number")?;
+        page_ids.push(pid);
+        let (cont, list) = match p.dict.get("Annots") {
+            Some(Obj::Ref(n, g)) => (Container::Array(*n), f.get_gen(*n, *g).as_array().map(|a| a.to_vec()).unwrap_or_default()),
+            Some(Obj::Array(a)) => (Container::Page(pid), a.clone()),
+            _ => (Container::Page(pid), Vec::new()),
+        };
+        for a in &list {
+            if let Obj::Ref(n, _) = a {
+                let d = f.resolve(a);
+                if d.dict_get("Subtype").and_then(|s| s.as_name()) == Some(b"Text") {
+                    let rect = d.dict_get("Rect").and_then(|r| refpdf::file::rect(&f.resolve(r))).ok_or(format!("note {n} without /Rect"))?;
+                    let contents = d.dict_get("Contents").and_then(|c| f.resolve(c).as_str_bytes().map(|b| b.to_vec()));
+                    notes.push(NoteObs { id: *n, page: pi, rect, contents });
+                }
+            }
+        }
+        annots.push((cont, list));
+        page_texts.push(shown_strings(&f.page_content(p)?));
+    }
+    let info_ref = f.trailer_get("Info");
+    let title = info_ref.as_ref().map(|i| f.resolve(i)).and_then(|d| d.dict_get("Title").and_then(|t| f.resolve(t).as_str_bytes().map(decode_text_string)));
+    Ok(RefObs {
+        fields,
+        notes,
+        annots,
+        page_ids,
+        page_texts,
+        title,
+        catalog_id,
+        pages_root_id: cat.dict_get("Pages").and_then(|p| p.as_ref()).map(|r| r.0),
+        info_id: info_ref.and_then(|i| i.as_ref()).map(|r| r.0),
+        acroform_id,
+    })
+}
+
+/// Widget annotations that show the field `fid` (besides a merged field/widget itself).
+fn widgets_of(f: &PdfFile, obs: &RefObs, fid: u32) -> Vec<u32> {
+    let fd = f.get(fid);
+    if fd.dict_get("Rect").is_some() {
+        return vec![];
+    }
+    let mut w: Vec<u32> = Vec::new();
+    if let Some(k) = f.dget(&fd, "Kids").as_array() {
+        for r in k {
+            if let Obj::Ref(n, _) = r {
+                if f.resolve(r).dict_get("Subtype").and_then(|s| s.as_name()) == Some(b"Widget") {
+                    w.push(*n);
+                }
+            }
+        }
+    }
+    if w.is_empty() {
+        for (_, list) in &obs.annots {
+            for a in list {
+                if let Obj::Ref(n, _) = a {
+                    if f.resolve(a).dict_get("Parent").and_then(|p| p.as_ref()).map(|r| r.0) == Some(fid) {
+                        w.push(*n);
+                    }
+                }
+            }
+        }
+    }
+    w
+}
+
+// ------------------------------------------------------------------ library observation
+
+#[derive(Debug, PartialEq, Clone)]
+struct LibObs {
+    fields: BTreeMap<String, Option<String>>,
+    notes: Vec<(u32, usize, f64, f64, String)>,
+    page_texts: Vec<Vec<String>>,
+    title: Option<String>,
+}
+
+fn lib_observe(bytes: &[u8]) -> Result<LibObs, String> {
+    use oxidize_pdf::parser::objects::{PdfDictionary, PdfObject};
+    use oxidize_pdf::parser::{PdfDocument, PdfReader};
+    use std::io::Cursor;
+    fn walk(rd: &mut PdfReader<Cursor<&[u8]>>, r: (u32, u16), prefix: &str, depth: usize, out: &mut BTreeMap<String, Option<String>>) -> Result<(), String> {
+        if depth > 32 {
+            return Err("field tree too deep".into());
+        }
+        let node: PdfDictionary = rd.get_object(r.0, r.1).map_err(|e| format!("field {}: {e}", r.0))?.as_dict().cloned().ok_or("field not a dict")?;
+        let t = node.get("T").and_then(|o| o.as_string()).map(|s| s.to_text());
+        let full = match (&t, prefix.is_empty()) {
+            (Some(t), true) => t.clone(),
+            (Some(t), false) => format!("{prefix}.{t}"),
+            (None, _) => prefix.to_string(),
+        };
+        let kids: Vec<(u32, u16)> = match node.get("Kids") {
+            Some(PdfObject::Array(a)) => a.0.iter().filter_map(|o| o.as_reference()).collect(),
+            _ => vec![],
+        };
+        let mut kids_are_fields = false;
+        for k in &kids {
+            if rd.get_object(k.0, k.1).ok().and_then(|o| o.as_dict()).map(|d| d.contains_key("T")).unwrap_or(false) {
+                kids_are_fields = true;
+            }
+        }
+        if kids.is_empty() || !kids_are_fields {
+            if t.is_some() {
+                out.insert(full, node.get("V").and_then(|o| o.as_string()).map(|s| s.to_text()));
+            }
+        } else {
+            for k in kids {
+                walk(rd, k, &full, depth + 1, out)?;
+            }
+        }
+        Ok(())
+    }
+    let r = vx::guard(|| -> Result<LibObs, String> {
+        let mut rd = PdfReader::new(Cursor::new(bytes)).map_err(|e| format!("open: {e}"))?;
+        let cat = rd.catalog().map_err(|e| format!("catalog: {e}"))?.clone();
+        let mut fields = BTreeMap::new();
+        let acro = match cat.get("AcroForm") {
+            Some(PdfObject::Reference(n, g)) => rd.get_object(*n, *g).ok().and_then(|o| o.as_dict().cloned()),
+            Some(PdfObject::Dictionary(d)) => Some(d.clone()),
+            _ => None,
+        };
+        if let Some(a) = acro {
+            if let Some(PdfObject::Array(arr)) = a.get("Fields") {
+                for r in arr.0.iter().filter_map(|o| o.as_reference()) {
+                    walk(&mut rd, r, "", 0, &mut fields)?;
+                }
+            }
+        }
+        let title = rd.metadata().map_err(|e| format!("metadata: {e}"))?.title;
+        let notes = IncrementalTextNoteEditor::new(bytes).notes().map_err(|e| format!("notes: {e}"))?;
+        let notes = notes.iter().map(|n| (n.id.object_number, n.page_index as usize, n.position.x, n.position.y, n.contents.clone())).collect();
+        let doc = PdfDocument::new(rd);
+        let n = doc.page_count().map_err(|e| format!("page_count: {e}"))?;
+        let mut page_texts = Vec::new();
+        for i in 0..n {
+            let p = doc.get_page(i).map_err(|e| format!("get_page {i}: {e}"))?;
+            let ss = p.content_streams_with_document(&doc).map_err(|e| format!("content {i}: {e}"))?;
+            let mut all = Vec::new();
+            for s in ss {
+                all.extend_from_slice(&s);
+                all.push(b'\n');
+            }
+            page_texts.push(shown_strings(&all));
+        }
+        Ok(LibObs { fields, notes, page_texts, title })
+    });
+    match r {
+        Ok(x) => x,
+        Err(p) => Err(format!("panic: {p}")),
+    }
+}
+
+fn lib_view_of(o: &RefObs) -> LibObs {
+    let mut notes: Vec<(u32, usize, f64, f64, String)> = o.notes.iter().map(|n| (n.id, n.page, n.rect[0], n.rect[1], n.contents.as_deref().map(decode_text_string).unwrap_or_default())).collect();
+    notes.sort_by(|a, b| (a.1, a.0).cmp(&(b.1, b.0)));
+    LibObs {
+        fields: o.fields.iter().map(|(k, v)| (k.clone(), v.v.as_deref().map(decode_text_string))).collect(),
+        notes,
+        page_texts: o.page_texts.clone(),
+        title: o.title.clone(),
+    }
+}
+
+// ------------------------------------------------------------------ edits
+
+#[derive(Clone, Debug)]
+enum Mutn {
+    Add { page: usize, x: f64, y: f64, v: usize },
+    Update { target: u32, x: f64, y: f64, v: usize },
+    Remove { target: u32 },
+}
+
+#[derive(Clone, Debug)]
+enum Edit {
+    Fill(Vec<(usize, usize)>),
+    Notes(Vec<Mutn>),
+    PageAdd,
+    PageReplace,
+    PageOverlay,
+}
+
+fn winansi_representable(s: &str) -> bool {
+    s.chars().all(|ch| (ch as u32) < 0x80 || ((ch as u32) >= 0xA0 && (ch as u32) <= 0xFF) || "€‚ƒ„…†‡ˆ‰Š‹ŒŽ‘’“”•–—˜™š›œžŸ".contains(ch))
+}
+
+fn one_page_doc(text: &str) -> Result<oxidize_pdf::Document, String> {
+    let mut d = oxidize_pdf::Document::new();
+    let mut p = oxidize_pdf::Page::a4();
+    p.text().set_font(oxidize_pdf::text::Font::Helvetica, 12.0).at(50.0, 800.0).write(text).map_err(|e| e.to_string())?;
+    d.add_page(p);
+    Ok(d)
+}
+
+/// Run the edit through the library. Ok(bytes) | Err(message)
+fn apply_edit(dir: &std::path::Path, tag: u64, base: &Base, prev: &[u8], e: &Edit) -> Result<Vec<u8>, String> {
+    let r = vx::guard(|| -> Result<Vec<u8>, String> {
+        match e {
+            Edit::Fill(list) => {
+                let filler = IncrementalFormFiller::new(prev);
+                if list.len() == 1 {
+                    filler.fill(base.fields[list[0].0], VALS[list[0].1]).map_err(|e| e.to_string())
+                } else {
+                    let l: Vec<(&str, &str)> = list.iter().map(|(f, v)| (base.fields[*f], VALS[*v])).collect();
+                    filler.fill_many(&l).map_err(|e| e.to_string())
+                }
+            }
+            Edit::Notes(ms) => {
+                let l: Vec<TextNoteMutation> = ms
+                    .iter()
+                    .map(|m| match m {
+                        Mutn::Add { page, x, y, v } => TextNoteMutation::Add { page_index: *page as u32, position: Point::new(*x, *y), contents: VALS[*v].to_string() },
+                        Mutn::Update { target, x, y, v } => TextNoteMutation::Update { id: TextNoteId::new(*target, 0), position: Point::new(*x, *y), contents: VALS[*v].to_string() },
+                        Mutn::Remove { target } => TextNoteMutation::Remove { id: TextNoteId::new(*target, 0) },
+                    })
+                    .collect();
+                IncrementalTextNoteEditor::new(prev).apply(&l).map(|u| u.pdf_bytes).map_err(|e| e.to_string())
+            }
+            Edit::PageAdd | Edit::PageReplace | Edit::PageOverlay => {
+                let path = dir.join(format!("in-{tag:016x}-{}.pdf", FILE_SEQ.fetch_add(1, Ordering::Relaxed)));
+                std::fs::write(&path, prev).map_err(|e| format!("scratch write: {e}"))?;
+                let mut out = Vec::new();
+                let res = {
+                    let mut w = PdfWriter::with_config(&mut out, WriterConfig::incremental());
+                    match e {
+                        Edit::PageAdd => one_page_doc("added").and_then(|mut d| w.write_incremental_update(&path, &mut d).map_err(|e| e.to_string())),
+                        Edit::PageReplace => one_page_doc("replaced").and_then(|mut d| w.write_incremental_with_page_replacement(&path, &mut d).map_err(|e| e.to_string())),
+                        _ => w
+                            .write_incremental_with_overlay(&path, |p| {
+                                p.text().set_font(oxidize_pdf::text::Font::Helvetica, 12.0).at(60.0, 60.0).write("overlay")?;
+                                Ok(())
+                            })
+                            .map_err(|e| e.to_string()),
+                    }
+                };
+                let _ = std::fs::remove_file(&path);
+                res.map(|_| out)
+            }
+        }
+    });
+    match r {
+        Ok(x) => x,
+        Err(p) => Err(format!("panic: {p}")),
+    }
+}
+
+fn dict_same_except(old: &Obj, new: &Obj, except: &[&str]) -> Result<(), String> {
+    let (Some(o), Some(n)) = (old.as_dict(), new.as_dict()) else { return Err(format!("not dictionaries: {old:?} -> {new:?}")) };
+    for (k, v) in o.iter() {
+        let ks = String::from_utf8_lossy(k).to_string();
+        if except.contains(&ks.as_str()) {
+            continue;
+        }
+        match n.get_b(k) {
+            Some(nv) if nv.same(v) => {}
+            other => return Err(format!("key /{ks}: {v:?} -> {other:?}")),
+        }
+    }
+    for (k, v) in n.iter() {
+        let ks = String::from_utf8_lossy(k).to_string();
+        if !except.contains(&ks.as_str()) && o.get_b(k).is_none() {
+            return Err(format!("new key /{ks} {v:?}"));
+        }
+    }
+    Ok(())
+}
+
+/// Logical state: what the document says after the history (ids and encodings abstracted).
+#[derive(Clone, Debug, PartialEq, Hash)]
+struct Logical {
+    fields: Vec<(String, Option<String>)>,
+    notes: Vec<(usize, i64, i64, String)>,
+    pages: Vec<Vec<String>>,
+}
+
+fn logical_of(o: &RefObs, known_raw: &BTreeMap<String, String>) -> Logical {
+    let mut notes: Vec<(usize, i64, i64, String)> = o.notes.iter().map(|n| (n.page, n.rect[0].round() as i64, n.rect[1].round() as i64, n.contents.as_deref().map(decode_text_string).unwrap_or_default())).collect();
+    notes.sort();
+    Logical {
+        fields: o.fields.iter().map(|(k, v)| (k.clone(), known_raw.get(k).cloned().map(Some).unwrap_or_else(|| v.v.as_deref().map(decode_text_string)))).collect(),
+        notes,
+        pages: o.page_texts.iter().map(|p| { let mut p = p.clone(); p.sort(); p }).collect(),
+    }
+}
+
+struct StepOutcome {
+    stop: bool,
+}
+
+#[allow(clippy::too_many_arguments)]
+fn check_step(c: &mut Ctx, what: &str, base: &Base, edit: &Edit, prev_bytes: &[u8], prev: &PdfFile, prev_obs: &RefObs, prev_lib: Option<&LibObs>, out: &[u8], model: &mut Logical, known_raw: &mut BTreeMap<String, String>) -> (StepOutcome, Option<(PdfFile, RefObs, Option<LibObs>)>) {
+    let stop = |s: bool| StepOutcome { stop: s };
+    let is_page_op = matches!(edit, Edit::PageAdd | Edit::PageReplace | Edit::PageOverlay);
+    // 1. append-only
+    if !out.starts_with(prev_bytes) {
+        let at = out.iter().zip(prev_bytes).position(|(a, b)| a != b).unwrap_or(out.len().min(prev_bytes.len()));
+        c.fail("C17/previous-bytes-not-preserved", format!("{what}: output ({} bytes) differs from the previous file ({} bytes) at byte {at}", out.len(), prev_bytes.len()));
+        return (stop(true), None);
+    }
+    if out.len() == prev_bytes.len() {
+        c.fail("C17/edit-appended-nothing", what.to_string());
+        return (stop(true), None);
+    }
+    let lib_new = lib_observe(out);
+    let prev_live: BTreeSet<u32> = prev.live_objects().into_iter().collect();
+    // 2. revision chain in the reference reader
+    let f = match PdfFile::parse(out) {
+        Ok(f) => f,
+        Err(e) => {
+            c.fail("C17/revision-chain-unreadable-by-reference-reader", format!("{what}: {e}"));
+            return (stop(true), None);
+        }
+    };
+    let mut hard = false;
+    let prev_sections = prev.sections.len();
+    if f.sections.len() != prev_sections + 1 {
+        c.fail("C17/revision-count-wrong", format!("{what}: {} cross-reference sections, previous file had {prev_sections}", f.sections.len()));
+        hard = true;
+    }
+    match f.sections[0].trailer.get("Prev") {
+        Some(Obj::Int(p)) if *p as usize == prev.startxref => {}
+        other => {
+            c.fail("C17/prev-does-not-point-at-previous-xref", format!("{what}: /Prev {other:?}, previous startxref {}", prev.startxref));
+            hard = true;
+        }
+    }
+    if f.sections[0].offset < prev_bytes.len() {
+        c.fail("C17/new-xref-inside-previous-bytes", format!("{what}: startxref {} < previous length {}", f.sections[0].offset, prev_bytes.len()));
+        hard = true;
+    }
+    let prev_size = prev.trailer.get("Size").and_then(|s| s.as_int()).unwrap_or(0);
+    let new_size = f.trailer.get("Size").and_then(|s| s.as_int()).unwrap_or(0);
+    for issue in refpdf::file::validate_file(&f) {
+        if is_page_op && issue.starts_with("/Size is") && new_size < prev_size {
+            c.fail("C17/page-writer-trailer-size-below-previous", format!("{what}: previous /Size {prev_size}, new /Size {new_size}: {issue}"));
+        } else {
+            c.fail("C17/revision-chain-invalid", format!("{what}: {issue}"));
+        }
+    }
+    // trailer carries the previous trailer's entries (7.5.6)
+    for (k, v) in prev.trailer.iter() {
+        let ks = String::from_utf8_lossy(k).to_string();
+        if ["Prev", "Size", "Type", "W", "Index", "Length", "Filter", "DecodeParms", "XRefStm"].contains(&ks.as_str()) {
+            continue;
+        }
+        match (ks.as_str(), f.trailer.get_b(k)) {
+            ("ID", Some(nv)) => {
+                let a = v.as_array().and_then(|a| a.first().cloned());
+                let b = nv.as_array().and_then(|a| a.first().cloned());
+                if a != b || nv.as_array().map(|a| a.len()) != Some(2) {
+                    c.fail("C17/incremental-trailer-changes-permanent-id", format!("{what}: {v:?} -> {nv:?}"));
+                }
+            }
+            ("Root", Some(nv)) if is_page_op => {
+                if nv.as_ref().is_none() {
+                    c.fail("C17/incremental-trailer-drops-entry", format!("{what}: /Root {nv:?}"));
+                }
+            }
+            ("Info", Some(nv)) if is_page_op && nv.as_ref().is_some() => {}
+            (_, Some(nv)) if nv.same(v) => {}
+            ("Info", None) => {
+                let lt = lib_new.as_ref().map(|o| o.title.clone());
+                c.fail("C17/incremental-trailer-omits-info", format!("{what}: previous trailer has /Info {v:?}, the new trailer {:?} has none (7.5.6: the added trailer shall contain all entries of the previous one); title was {:?}, library now reads {:?}", f.trailer, prev_obs.title, lt));
+            }
+            ("ID", None) if is_page_op => c.fail("C17/page-writer-trailer-omits-id", format!("{what}: previous trailer has /ID {v:?}, the new trailer {:?} has none", f.trailer)),
+            (_, other) => c.fail("C17/incremental-trailer-drops-entry", format!("{what}: /{ks} {v:?} -> {other:?}")),
+        }
+    }
+    if hard {
+        return (stop(true), None);
+    }
+    // 3. reference observation of the new file
+    let obs = match observe(&f) {
+        Ok(o) => o,
+        Err(e) => {
+            c.fail("C17/edited-document-unreadable-by-reference-reader", format!("{what}: {e}"));
+            return (stop(true), None);
+        }
+    };
+
+    // expected delta and touched set
+    let mut touched: BTreeSet<u32> = BTreeSet::new();
+    let mut diverged = false;
+    let mut page_expect: Option<(Vec<Vec<String>>, Vec<NoteObs>)> = None;
+    match edit {
+        Edit::Fill(list) => {
+            let mut last: BTreeMap<&str, usize> = BTreeMap::new();
+            for (fi, vi) in list {
+                last.insert(base.fields[*fi], *vi);
+            }
+            if let Some(a) = prev_obs.acroform_id {
+                touched.insert(a);
+                match dict_same_except(&prev.get(a), &f.get(a), &["NeedAppearances"]) {
+                    Ok(()) => {
+                        if f.get(a).dict_get("NeedAppearances") != Some(&Obj::Bool(true)) {
+                            c.fail("C17/touched-object-changed-beyond-the-edit", format!("{what}: AcroForm {a} without /NeedAppearances true"));
+                        }
+                    }
+                    Err(d) => c.fail("C17/touched-object-changed-beyond-the-edit", format!("{what}: AcroForm {a}: {d}")),
+                }
+            }
+            for (name, vi) in &last {
+                let v = VALS[*vi];
+                let Some(pf) = prev_obs.fields.get(*name) else {
+                    c.fail("C17/field-missing-in-previous-revision", format!("{what}: {name}"));
+                    diverged = true;
+                    continue;
+                };
+                touched.insert(pf.id);
+                if let Err(d) = dict_same_except(&prev.get(pf.id), &f.get(pf.id), &["V", "AP", "AS"]) {
+                    c.fail("C17/touched-object-changed-beyond-the-edit", format!("{what}: field {name} (object {}): {d}", pf.id));
+                }
+                for w in widgets_of(prev, prev_obs, pf.id) {
+                    touched.insert(w);
+                    if let Err(d) = dict_same_except(&prev.get(w), &f.get(w), &["AP", "AS"]) {
+                        c.fail("C17/touched-object-changed-beyond-the-edit", format!("{what}: widget {w} of field {name}: {d}"));
+                    }
+                }
+                match obs.fields.get(*name) {
+                    Some(nf) if nf.id == pf.id => match &nf.v {
+                        Some(b) if decode_text_string(b) == v => {
+                            known_raw.remove(*name);
+                        }
+                        Some(b) if b.as_slice() == v.as_bytes() && !v.is_ascii() => {
+                            c.fail("C17/fill-writes-value-as-raw-utf8-not-a-text-string", format!("{what}: /V of {name} is <{}> = the UTF-8 bytes of {v:?}; as a PDF text string (7.9.2.2) that reads {:?}", vx::hex(b), decode_text_string(b)));
+                            known_raw.insert(name.to_string(), v.to_string());
+                        }
+                        other => {
+                            c.fail("C17/field-value-not-latest", format!("{what}: {name} should read {v:?}, reference reader finds {:?}", other.as_ref().map(|b| decode_text_string(b))));
+                            diverged = true;
+                        }
+                    },
+                    other => {
+                        c.fail("C17/field-value-not-latest", format!("{what}: {name} should read {v:?}, reference reader finds field {other:?}"));
+                        diverged = true;
+                    }
+                }
+                if let Some(e) = model.fields.iter_mut().find(|(k, _)| k == name) {
+                    e.1 = Some(v.to_string());
+                }
+            }
+            // all other fields, and all notes/pages, as before
+            for (name, pf) in &prev_obs.fields {
+                if !last.contains_key(name.as_str()) && obs.fields.get(name) != Some(pf) {
+                    c.fail("C17/unedited-field-changed", format!("{what}: {name}: {pf:?} -> {:?}", obs.fields.get(name)));
+                    diverged = true;
+                }
+            }
+            if obs.fields.len() != prev_obs.fields.len() {
+                c.fail("C17/field-set-changed", format!("{what}: {:?} -> {:?}", prev_obs.fields.keys().collect::<Vec<_>>(), obs.fields.keys().collect::<Vec<_>>()));
+                diverged = true;
+            }
+            if obs.notes != prev_obs.notes || obs.page_texts != prev_obs.page_texts {
+                c.fail("C17/fill-changed-notes-or-pages", format!("{what}: notes {:?} -> {:?}; pages {:?} -> {:?}", prev_obs.notes, obs.notes, prev_obs.page_texts, obs.page_texts));
+                diverged = true;
+            }
+        }
+        Edit::Notes(ms) => {
+            let mut exp_notes = prev_obs.notes.clone();
+            let mut exp_annots: Vec<(Container, Vec<Obj>)> = prev_obs.annots.clone();
+            let live_before: &BTreeSet<u32> = &prev_live;
+            let mut new_ids: Vec<u32> = Vec::new();
+            for m in ms {
+                match m {
+                    Mutn::Add { page, x, y, v } => {
+                        // the new note is the /Text annotation of that page with a number unknown to the previous file
+                        let cand: Vec<&NoteObs> = obs.notes.iter().filter(|n| n.page == *page && !prev_obs.notes.iter().any(|p| p.id == n.id) && !new_ids.contains(&n.id)).collect();
+                        let found = cand.iter().find(|n| (n.rect[0] - x).abs() < 1e-6 && (n.rect[1] - y).abs() < 1e-6).copied();
+                        match found {
+                            Some(n) => {
+                                if live_before.contains(&n.id) || (n.id as i64) < prev_size {
+                                    c.fail("C17/new-object-reuses-existing-number", format!("{what}: added note got object number {} but the previous file has /Size {prev_size} (object live before: {})", n.id, live_before.contains(&n.id)));
+                                }
+                                let okr = (n.rect[2] - x - 20.0).abs() < 1e-6 && (n.rect[3] - y - 20.0).abs() < 1e-6;
+                                let okc = n.contents.as_deref().map(decode_text_string).as_deref() == Some(VALS[*v]);
+                                if !okr || !okc {
+                                    c.fail("C17/note-value-not-latest", format!("{what}: added note reads {n:?}, expected contents {:?} at ({x},{y}) 20x20", VALS[*v]));
+                                    diverged = true;
+                                }
+                                new_ids.push(n.id);
+                                exp_notes.push(n.clone());
+                                exp_annots[*page].1.push(Obj::Ref(n.id, 0));
+                            }
+                            None => {
+                                c.fail("C17/note-value-not-latest", format!("{what}: no new /Text annotation at ({x},{y}) on page {page}; reference reader sees {:?}", obs.notes));
+                                diverged = true;
+                            }
+                        }
+                        model.notes.push((*page, x.round() as i64, y.round() as i64, VALS[*v].to_string()));
+                    }
+                    Mutn::Update { target, x, y, v } => {
+                        touched.insert(*target);
+                        if let Some(e) = exp_notes.iter_mut().find(|n| n.id == *target) {
+                            let old = (e.page, e.rect[0].round() as i64, e.rect[1].round() as i64, e.contents.as_deref().map(decode_text_string).unwrap_or_default());
+                            let (w, h) = (e.rect[2] - e.rect[0], e.rect[3] - e.rect[1]);
+                            e.rect = [*x, *y, x + w, y + h];
+                            // any encoding of the new contents is fine: take what the file says if it decodes to v
+                            let got = obs.notes.iter().find(|n| n.id == *target).and_then(|n| n.contents.clone());
+                            e.contents = match got {
+                                Some(b) if decode_text_string(&b) == VALS[*v] => Some(b),
+                                _ => Some(encode_text_string(VALS[*v])),
+                            };
+                            if let Some(mn) = model.notes.iter_mut().find(|n| **n == old) {
+                                *mn = (old.0, x.round() as i64, y.round() as i64, VALS[*v].to_string());
+                            }
+                        }
+                        if let Err(d) = dict_same_except(&prev.get(*target), &f.get(*target), &["Rect", "Contents"]) {
+                            c.fail("C17/touched-object-changed-beyond-the-edit", format!("{what}: note {target}: {d}"));
+                        }
+                    }
+                    Mutn::Remove { target } => {
+                        if let Some(pos) = exp_notes.iter().position(|n| n.id == *target) {
+                            let e = exp_notes.remove(pos);
+                            let old = (e.page, e.rect[0].round() as i64, e.rect[1].round() as i64, e.contents.as_deref().map(decode_text_string).unwrap_or_default());
+                            exp_annots[e.page].1.retain(|o| o.as_ref().map(|r| r.0) != Some(*target));
+                            if let Some(mp) = model.notes.iter().position(|n| *n == old) {
+                                model.notes.remove(mp);
+                            }
+                        }
+                    }
+                }
+            }
+            let key = |n: &NoteObs| (n.page, n.id);
+            let mut a = obs.notes.clone();
+            let mut b = exp_notes.clone();
+            a.sort_by_key(key);
+            b.sort_by_key(key);
+            let same = a.len() == b.len() && a.iter().zip(&b).all(|(p, q)| p.id == q.id && p.page == q.page && p.rect.iter().zip(&q.rect).all(|(s, t)| (s - t).abs() < 1e-6) && p.contents.as_deref().map(decode_text_string) == q.contents.as_deref().map(decode_text_string));
+            if !same && !diverged {
+                c.fail("C17/note-value-not-latest", format!("{what}: expected notes {b:?}, reference reader sees {a:?}"));
+                diverged = true;
+            }
+            // containers
+            for (pi, (cont, list)) in exp_annots.iter().enumerate() {
+                if *list != prev_obs.annots[pi].1 {
+                    match cont {
+                        Container::Page(p) => {
+                            touched.insert(*p);
+                            if let Err(d) = dict_same_except(&prev.get(*p), &f.get(*p), &["Annots"]) {
+                                c.fail("C17/touched-object-changed-beyond-the-edit", format!("{what}: page object {p}: {d}"));
+                            }
+                        }
+                        Container::Array(a) => {
+                            touched.insert(*a);
+                        }
+                    }
+                }
+                if obs.annots.get(pi).map(|x| &x.1) != Some(list) {
+                    if !diverged {
+                        c.fail("C17/annots-array-wrong", format!("{what}: page {pi} /Annots expected {list:?}, found {:?}", obs.annots.get(pi).map(|x| &x.1)));
+                    }
+                    diverged = true;
+                }
+            }
+            if obs.fields != prev_obs.fields || obs.page_texts != prev_obs.page_texts {
+                c.fail("C17/note-edit-changed-fields-or-pages", format!("{what}: fields {:?} -> {:?}; pages {:?} -> {:?}", prev_obs.fields, obs.fields, prev_obs.page_texts, obs.page_texts));
+                diverged = true;
+            }
+        }
+        Edit::PageAdd | Edit::PageReplace | Edit::PageOverlay => {
+            touched.insert(prev_obs.catalog_id);
+            touched.extend(prev_obs.pages_root_id);
+            touched.extend(prev_obs.info_id);
+            let mut exp_pages = prev_obs.page_texts.clone();
+            let mut exp_notes = prev_obs.notes.clone();
+            match edit {
+                Edit::PageAdd => exp_pages.push(vec!["added".into()]),
+                Edit::PageReplace => {
+                    exp_pages[0] = vec!["replaced".into()];
+                    touched.insert(prev_obs.page_ids[0]);
+                    exp_notes.retain(|n| n.page != 0);
+                    model.notes.retain(|n| n.0 != 0);
+                }
+                _ => {
+                    for p in exp_pages.iter_mut() {
+                        p.push("overlay".into());
+                    }
+                    touched.extend(prev_obs.page_ids.iter().copied());
+                }
+            }
+            model.pages = exp_pages.iter().map(|p| { let mut p = p.clone(); p.sort(); p }).collect();
+            page_expect = Some((exp_pages, exp_notes));
+        }
+    }
+
+    // 5. untouched objects are value-identical; fresh numbers for new objects
+    let mut changed: Vec<u32> = Vec::new();
+    for &n in prev_live.iter() {
+        if touched.contains(&n) {
+            continue;
+        }
+        if !prev.get(n).same(&f.get(n)) {
+            changed.push(n);
+        }
+    }
+    if !changed.is_empty() {
+        let newest: Vec<u32> = f.sections[0].entries.iter().filter(|(_, e)| !matches!(e, XEntry::Free { .. })).map(|(k, _)| *k).collect();
+        let from_one = newest.first() == Some(&1) && newest.windows(2).all(|w| w[1] == w[0] + 1);
+        let n0 = changed[0];
+        if is_page_op && from_one && changed.iter().all(|n| newest.contains(n)) {
+            c.fail(
+                "C17/page-writer-numbers-new-objects-from-1-overwriting-base-objects",
+                format!("{what}: the appended revision defines objects {newest:?} (previous /Size {prev_size}); untouched objects {changed:?} changed, e.g. {n0}: {:?} -> {:?}", prev.get(n0), f.get(n0)),
+            );
+        } else {
+            c.fail("C17/untouched-object-changed", format!("{what}: objects {changed:?} are outside the touched set {touched:?}; e.g. {n0}: {:?} -> {:?}", prev.get(n0), f.get(n0)));
+        }
+        diverged = true;
+    }
+    if let Some((exp_pages, exp_notes)) = page_expect {
+        // the catalog may change its /Pages only
+        let newcat = f.get(obs.catalog_id);
+        let oldcat = prev.get(prev_obs.catalog_id);
+        let mut catalog_stripped = false;
+        if let Err(d) = dict_same_except(&oldcat, &newcat, &["Pages"]) {
+            let only_pages = newcat.as_dict().map(|d| d.keys().all(|k| k.as_slice() == b"Type" || k.as_slice() == b"Pages")).unwrap_or(false);
+            if only_pages {
+                catalog_stripped = true;
+                c.fail("C17/page-writer-catalog-keeps-only-pages", format!("{what}: catalog {oldcat:?} -> {newcat:?}"));
+            } else {
+                c.fail("C17/touched-object-changed-beyond-the-edit", format!("{what}: catalog: {d}"));
+            }
+            diverged = true;
+        }
+        // when the writer has overwritten base objects nothing further can be told apart from that
+        // defect; otherwise pages, fields and notes are held to the model
+        if changed.is_empty() {
+            let sorted = |v: &Vec<Vec<String>>| -> Vec<Vec<String>> {
+                v.iter().map(|p| { let mut p = p.clone(); p.sort(); p }).collect()
+            };
+            // an overlay may paint before or after the original content: compare per-page multisets
+            if sorted(&obs.page_texts) != sorted(&exp_pages) {
+                c.fail("C17/page-state-wrong", format!("{what}: expected page texts {exp_pages:?}, reference reader sees {:?}", obs.page_texts));
+                diverged = true;
+            }
+            let fields_same = obs.fields.len() == prev_obs.fields.len() && obs.fields.iter().all(|(k, v)| prev_obs.fields.get(k).map(|p| p.v == v.v).unwrap_or(false));
+            if !fields_same && !catalog_stripped {
+                c.fail("C17/field-values-lost-after-page-edit", format!("{what}: fields {:?} -> {:?}", prev_obs.fields, obs.fields));
+                diverged = true;
+            }
+            let ncmp = |a: &Vec<NoteObs>| {
+                let mut v: Vec<(usize, i64, i64, Option<String>)> = a.iter().map(|n| (n.page, n.rect[0].round() as i64, n.rect[1].round() as i64, n.contents.as_deref().map(decode_text_string))).collect();
+                v.sort();
+                v
+            };
+            if ncmp(&obs.notes) != ncmp(&exp_notes) {
+                c.fail("C17/notes-lost-after-page-edit", format!("{what}: expected {:?}, reference reader sees {:?}", ncmp(&exp_notes), ncmp(&obs.notes)));
+                diverged = true;
+            }
+        }
+    }
+    for (n, e) in f.sections[0].entries.iter() {
+        if matches!(e, XEntry::Free { .. }) || touched.contains(n) || changed.contains(n) {
+            continue;
+        }
+        if (*n as i64) < prev_size && prev_live.contains(n) {
+            // rewritten with an identical value: harmless, not flagged
+            continue;
+        }
+        if (*n as i64) < prev_size && !is_page_op {
+            c.fail("C17/new-object-reuses-existing-number", format!("{what}: new object {n} below the previous /Size {prev_size}"));
+        }
+    }
+
+    // 4. the library reads the new file as the reference reader does
+    let want = lib_view_of(&obs);
+    match &lib_new {
+        Ok(lo) => {
+            let mut title_ok = lo.title == want.title;
+            if !title_ok && want.title.is_none() {
+                // already reported as trailer-omits-info when applicable
+                title_ok = true;
+            }
+            let lo_cmp = LibObs { title: None, ..lo.clone() };
+            let want_cmp = LibObs { title: None, ..want.clone() };
+            let notes_close = lo_cmp.notes.len() == want_cmp.notes.len() && lo_cmp.notes.iter().zip(&want_cmp.notes).all(|(a, b)| a.0 == b.0 && a.1 == b.1 && (a.2 - b.2).abs() < 1e-6 && (a.3 - b.3).abs() < 1e-6 && a.4 == b.4);
+            if lo_cmp.fields != want_cmp.fields || !notes_close || lo_cmp.page_texts != want_cmp.page_texts || !title_ok {
+                // stale-view signature: the library reads the new file exactly as it read the previous one,
+                // and a touched object is a member of an object stream in an earlier revision
+                let before = match prev_lib {
+                    Some(b) => Some(b.clone()),
+                    None => lib_observe(prev_bytes).ok(),
+                };
+                let unchanged_view = before.as_ref().map(|b| b.fields == lo.fields && b.notes == lo.notes && b.page_texts == lo.page_texts).unwrap_or(false);
+                let compressed_touched: Vec<u32> = touched.iter().copied().filter(|n| f.sections.iter().skip(1).any(|s| matches!(s.entries.get(n), Some(XEntry::Compressed { .. })))).collect();
+                if unchanged_view && !compressed_touched.is_empty() && !diverged {
+                    c.fail(
+                        "C17/library-reader-ignores-update-of-object-stream-member",
+                        format!("{what}: the update redefines objects {compressed_touched:?} that the base stores in an object stream; reference reader sees fields {:?} notes {:?}; library still sees fields {:?} notes {:?}", want.fields, want.notes, lo.fields, lo.notes),
+                    );
+                } else if !diverged {
+                    c.fail("C17/library-reader-disagrees-with-reference-reader", format!("{what}: reference {want:?} library {lo:?}"));
+                }
+                diverged = true;
+            }
+        }
+        Err(e) => {
+            c.fail("C17/edited-document-unreadable-by-library", format!("{what}: {e}"));
+            diverged = true;
+        }
+    }
+    // 6. model
+    if !diverged {
+        let l = logical_of(&obs, known_raw);
+        let mut m = model.clone();
+        m.notes.sort();
+        if l != m {
+            c.fail("C17/logical-state-differs-from-model", format!("{what}: model {m:?} observed {l:?}"));
+            diverged = true;
+        }
+    }
+    (stop(diverged), Some((f, obs, lib_new.ok())))
+}
+
+pub fn run(rep: &mut Report) {
+    let thorough = rep.tier.is_thorough();
+    rep.rule(
+        "one case = (base document, history of 1..=K edits); every prefix of a history is checked after each edit; non-trivial = \
+         at least one edit was accepted by the library and produced a new revision; distinct input = distinct (base, history); \
+         distinct outcome = distinct final logical state (field values, note multiset, page texts) x failure keys. The model \
+         state is a function of the logical effect of the history, so histories with equal effects are held to equal states.",
+    );
+    rep.assume("reference reader refpdf (xref tables/streams, /Prev chains, object streams, text-string decoding) gives the meaning of every revision");
+    rep.assume("an edit the library refuses with an error (e.g. a fill value outside WinAnsi) produces no output and is outside the property; it is counted (coverage.refused_edits) and the history goes on from the unchanged file");
+    rep.assume("a history is cut after the first step whose result diverges from the model or that the library itself misreads (later edits would be judged on a misread input); counted in coverage.histories_cut_short");
+    rep.assume("the library-authored xref-stream/object-stream base (WriterConfig::modern) is run in the thorough tier only, with one-edit histories over a reduced value menu: the writer numbers its object stream 1000000 and emits a 1 000 001-entry cross-reference stream that costs the library's own reader about 10 CPU-seconds per open; the refpdf-built object-stream base covers that file form at full depth in both tiers");
+    rep.assume("touched set: fill = field object(s), their widget annotations, the AcroForm dictionary; note add/remove = the page object or its indirect /Annots array; note update = the annotation; page edits = catalog, page-tree root, /Info, the affected page objects");
+
+    let dir = vx::verif_root().join(".scratch").join(format!("C17-{}", std::process::id()));
+    let _ = std::fs::remove_dir_all(&dir);
+    if let Err(e) = std::fs::create_dir_all(&dir) {
+        rep.machinery_error(format!("cannot create scratch dir: {e}"));
+        return;
+    }
+    let mut bases: Vec<Base> = Vec::new();
+    for modern in [false, true] {
+        if modern && !thorough {
+            continue;
+        }
+        match library_base(modern) {
+            Ok(b) => bases.push(Base { name: if modern { "library-modern" } else { "library-classic" }, bytes: b, fields: vec!["f1", "f2"] }),
+            Err(e) => rep.machinery_error(format!("cannot author library base (modern={modern}): {e}")),
+        }
+    }
+    for modern in [false, true] {
+        let b = crafted_base(modern);
+        let issues = refpdf::file::validate(&b);
+        if !issues.is_empty() {
+            rep.machinery_error(format!("crafted base (modern={modern}) fails the strict validator: {issues:?}"));
+            continue;
+        }
+        bases.push(Base { name: if modern { "crafted-objstm" } else { "crafted-classic" }, bytes: b, fields: vec!["f1", "grp.child", "名é"] });
+    }
+    // every base must be read identically by both readers before any edit
+    let mut base_notes = Vec::new();
+    let mut usable: Vec<Base> = Vec::new();
+    for b in bases {
+        let r = PdfFile::parse(&b.bytes).and_then(|f| observe(&f));
+        match (r, lib_observe(&b.bytes)) {
+            (Ok(o), Ok(l)) => {
+                let want = lib_view_of(&o);
+                let fields_ok = b.fields.iter().all(|n| o.fields.contains_key(*n));
+                if want != l || !fields_ok {
+                    base_notes.push(json!({"base": b.name, "excluded": true, "reference": format!("{want:?}"), "library": format!("{l:?}")}));
+                    continue;
+                }
+                base_notes.push(json!({"base": b.name, "bytes": b.bytes.len(), "fields": o.fields.keys().collect::<Vec<_>>(), "notes": o.notes.len(), "pages": o.page_texts}));
+                usable.push(b);
+            }
+            (a, l) => base_notes.push(json!({"base": b.name, "excluded": true, "reference_error": a.err(), "library_error": l.err()})),
+        }
+    }
+    rep.note("bases", json!(base_notes));
+    if usable.is_empty() {
+        rep.machinery_error("no usable base document".into());
+        return;
+    }
+    // development aid only: C17_ONLY_BASE=<name> restricts the run to one base (recorded in the evidence)
+    if let Ok(only) = std::env::var("C17_ONLY_BASE") {
+        usable.retain(|b| only.split(',').any(|o| o == b.name));
+        rep.note("DEV_FILTER_ONLY_BASE", json!(only));
+        rep.assume("DEVELOPMENT FILTER ACTIVE: not all bases were run");
+    }
+    let bases = &usable;
+    let dir_ref = &dir;
+    let max_len = if thorough { 3 } else { 2 };
+
+    for (bi, base) in bases.iter().enumerate() {
+        let section = format!("histories-{}", base.name);
+        rep.explore(&section, Explore::full(), |c: &mut Ctx| {
+            let nf = base.fields.len();
+            let mut bytes = base.bytes.clone();
+            let mut file = match PdfFile::parse(&bytes) {
+                Ok(f) => f,
+                Err(e) => {
+                    c.fail("C17/base-unreadable", e);
+                    return;
+                }
+            };
+            let mut obs = match observe(&file) {
+                Ok(o) => o,
+                Err(e) => {
+                    c.fail("C17/base-unreadable", e);
+                    return;
+                }
+            };
+            let mut lib: Option<LibObs> = None;
+            let mut known_raw: BTreeMap<String, String> = BTreeMap::new();
+            let mut model = logical_of(&obs, &known_raw);
+            let mut history: Vec<String> = Vec::new();
+            let mut accepted = 0;
+            // the library-modern base carries a 1 000 001-entry cross-reference stream (the writer numbers its
+            // object stream 1000000): every open of it costs the library's reader ~10 CPU-seconds, so it is run in
+            // the thorough tier only, with single-edit histories over a reduced value menu
+            let reduced = base.name == "library-modern";
+            let max_len = if reduced { 1 } else { max_len };
+            // value menus: full, or (reduced base) {x, é} for a single fill and {x} elsewhere
+            let nv_fill = if reduced { 2 } else { VALS.len() };
+            let nv = if reduced { 1 } else { VALS.len() };
+            for step in 0..max_len {
+                // kinds: [stop] fill fill_many fill_many_dup note_add note_update note_remove batch page_add page_replace page_overlay
+                let first = step == 0;
+                let k = c.choose("edit", if first { 10 } else { 11 });
+                let kind = if first { k + 1 } else { k };
+                if kind == 0 {
+                    break;
+                }
+                let nnotes = obs.notes.len();
+                let next_pos = |i: usize| (20.0 + 30.0 * ((nnotes + i) % 15) as f64, 40.0 + 30.0 * step as f64);
+                let edit: Edit = match kind {
+                    1 => Edit::Fill(vec![(c.choose("field", if reduced { 1 } else { nf }), c.choose("value", nv_fill))]),
+                    2 => {
+                        let a = c.choose("value_a", nv);
+                        let b = c.choose("value_b", nv);
+                        Edit::Fill(vec![(0, a), (1, b)])
+                    }
+                    3 => {
+                        let a = c.choose("value_a", nv);
+                        let b = c.choose("value_b", nv);
+                        Edit::Fill(vec![(nf - 1, a), (nf - 1, b), (0, a)])
+                    }
+                    4 => {
+                        let page = c.choose("page", if reduced { 1 } else { 2 });
+                        let v = c.choose("value", nv);
+                        let (x, y) = next_pos(0);
+                        Edit::Notes(vec![Mutn::Add { page, x, y, v }])
+                    }
+                    5 | 6 | 7 => {
+                        if nnotes == 0 {
+                            INAPPLICABLE.fetch_add(1, Ordering::Relaxed);
+                            history.push("(no note to target)".into());
+                            break;
+                        }
+                        let t = obs.notes[c.choose("target", nnotes)].id;
+                        match kind {
+                            5 => {
+                                let v = c.choose("value", nv);
+                                let (x, y) = next_pos(0);
+                                Edit::Notes(vec![Mutn::Update { target: t, x: x + 200.0, y: y + 300.0, v }])
+                            }
+                            6 => Edit::Notes(vec![Mutn::Remove { target: t }]),
+                            _ => {
+                                let shape = c.choose("batch", 2);
+                                let v = c.choose("value", nv);
+                                let (x, y) = next_pos(0);
+                                let (x2, y2) = next_pos(1);
+                                if shape == 0 {
+                                    Edit::Notes(vec![Mutn::Add { page: 0, x, y, v }, Mutn::Update { target: t, x: x2 + 200.0, y: y2 + 300.0, v: (v + 1) % VALS.len() }, Mutn::Add { page: 1, x: x2, y: y2, v }])
+                                } else {
+                                    Edit::Notes(vec![Mutn::Remove { target: t }, Mutn::Add { page: 1, x, y, v }])
+                                }
+                            }
+                        }
+                    }
+                    8 => Edit::PageAdd,
+                    9 => Edit::PageReplace,
+                    _ => Edit::PageOverlay,
+                };
+                let label = match &edit {
+                    Edit::Fill(l) => format!("fill{:?}", l.iter().map(|(f, v)| (base.fields[*f], VALS[*v])).collect::<Vec<_>>()),
+                    Edit::Notes(ms) => format!(
+                        "notes{:?}",
+                        ms.iter()
+                            .map(|m| match m {
+                                Mutn::Add { page, v, .. } => format!("add(p{page},{:?})", VALS[*v]),
+                                Mutn::Update { target, v, .. } => format!("update(#{target},{:?})", VALS[*v]),
+                                Mutn::Remove { target } => format!("remove(#{target})"),
+                            })
+                            .collect::<Vec<_>>()
+                    ),
+                    Edit::PageAdd => "page_add".into(),
+                    Edit::PageReplace => "page_replace".into(),
+                    Edit::PageOverlay => "page_overlay".into(),
+                };
+                history.push(label);
+                let what = format!("{} after {:?}", base.name, history);
+                let tag = vx::h64(&(bi, c.choices()));
+                match apply_edit(dir_ref, tag, base, &bytes, &edit) {
+                    Err(e) => {
+                        let refusal_expected = match &edit {
+                            Edit::Fill(l) => l.iter().any(|(_, v)| !winansi_representable(VALS[*v])) && e.contains("WinAnsi"),
+                            _ => false,
+                        };
+                        if refusal_expected {
+                            REFUSED.fetch_add(1, Ordering::Relaxed);
+                            if let Some(l) = history.last_mut() {
+                                l.push_str("=refused");
+                            }
+                            continue;
+                        }
+                        let key = if e.starts_with("panic") { "C17/edit-panicked" } else { "C17/edit-failed" };
+                        c.fail(key, format!("{what}: {e}"));
+                        STOPPED_EARLY.fetch_add(1, Ordering::Relaxed);
+                        break;
+                    }
+                    Ok(out) => {
+                        accepted += 1;
+                        let (oc, next) = check_step(c, &what, base, &edit, &bytes, &file, &obs, lib.as_ref(), &out, &mut model, &mut known_raw);
+                        if oc.stop || next.is_none() {
+                            if step + 1 < max_len {
+                                STOPPED_EARLY.fetch_add(1, Ordering::Relaxed);
+                            }
+                            break;
+                        }
+                        let (nf_, no_, nl_) = next.unwrap();
+                        file = nf_;
+                        obs = no_;
+                        lib = nl_;
+                        bytes = out;
+                    }
+                }
+            }
+            c.input(vx::h64(&(base.name, &history)));
+            if accepted > 0 {
+                c.nontrivial();
+            }
+            let mut m = model.clone();
+            m.notes.sort();
+            let failed = c.failed();
+            c.outcome(vx::h64(&(m, failed)));
+            c.sample(json!({"base": base.name, "history": history, "final_model": format!("{model:?}")}));
+        });
+    }
+    rep.note("refused_edits", json!(REFUSED.load(Ordering::Relaxed)));
+    rep.note("histories_cut_short", json!(STOPPED_EARLY.load(Ordering::Relaxed)));
+    rep.note("inapplicable_note_edits", json!(INAPPLICABLE.load(Ordering::Relaxed)));
+    let _ = std::fs::remove_dir_all(&dir);
+}
